@@ -4,7 +4,7 @@ from __future__ import annotations
 
 from .. import terms as tm
 from ..model import AnalysisError
-from .common import ob, need, call_name, resolve_ite_free, role_of, is_lit, lit
+from .common import strip_numeric, count_form, ob, need, call_name, resolve_ite_free, role_of, is_lit, lit
 from .. import symeval
 
 PROP = "C07"
@@ -443,6 +443,13 @@ def rule_chromatwin(ctx):
         ra, ca = raw[0].args, chroma[0].args
         good = all(c.op == "call" and call_name(c) == "multipitch.midi_to_chroma" and c.a[1][0] is r for r, c in zip(ra[:2], ca[:2]))
     yield ob(R, f, "multipitch.metrics:chroma-inputs", good, "chroma true positives = compute_num_true_positives(midi_to_chroma(ref_midi), midi_to_chroma(est_midi), chroma=True)")
+    # both computations see the caller's keywords (window) in the same way
+    if len(raw) == 1 and len(chroma) == 1:
+        def routing(c):
+            return (bool(c.d.get("via_filter")), tuple(sorted((n, v.id) for n, v in c.kw if n != "chroma")))
+
+        same = routing(raw[0]) == routing(chroma[0])
+        yield ob(R, f, "multipitch.metrics:same-keywords", same, "the plain and the chroma true-positive computations receive the caller's keywords identically (same `window`)" if same else "the plain and the chroma true-positive computations are routed differently (%s vs %s): a caller's `window` reaches only one of them" % (routing(raw[0]), routing(chroma[0])), node=chroma[0].node)
     g = ctx.program.func("multipitch.midi_to_chroma", R)
     sg = ctx.S.get(g.qual)
     t = sg.returns[0].term
@@ -516,11 +523,52 @@ def rule_edgepred(ctx):
         yield o
 
 
+def rule_contnorm(ctx):
+    """beat.continuity: the continuous score (longest run of matched beats) and the total score (number of matched
+    beats) are normalised by the same count - the length of the success vector - so longest run <= sum gives
+    continuous <= total at every metrical level."""
+    R = "C07.CONTNORM"
+    f = ctx.program.func("beat.continuity", R)
+    s = ctx.S.get(f.qual)
+    apps = []
+    for m in s.by_kind("mutate"):
+        if m.how == "method:append" and m.val.op == "tuple" and len(m.val.a) == 1:
+            v = m.val.a[0]
+            if v.op == "bin" and v.a[0] == "/":
+                apps.append((m, v))
+    need(len(apps) == 2, R, "continuity: the two appended accuracies (continuous, total) were not found")
+    cont = [(m, v) for m, v in apps if any(x.op == "call" and call_name(x) == "np.diff" for x in tm.walk(v.a[1]))]
+    tot = [(m, v) for m, v in apps if v.a[1].op == "call" and call_name(v.a[1]) in ("np.sum", "builtins.sum")]
+    need(len(cont) == 1 and len(tot) == 1, R, "continuity: longest-run / sum numerators not recognised")
+    dc, dt = strip_numeric(cont[0][1].a[2]), strip_numeric(tot[0][1].a[2])
+    yield ob(R, f, "beat.continuity:same-normaliser", dc is dt, "continuous and total accuracy are divided by the same count %s" % tm.show(dt, 3) if dc is dt else "continuous accuracy is divided by %s but total accuracy by %s: the ordering continuous <= total is lost when the counts differ" % (tm.show(dc, 3), tm.show(dt, 3)), node=cont[0][0].node)
+    cf = count_form(dt)
+    summed = tot[0][1].a[1].a[1][0]
+    yield ob(R, f, "beat.continuity:normaliser-is-length", cf is not None and cf[1] is summed, "the normaliser is the length of the very success vector that is summed", node=tot[0][0].node)
+
+
+def rule_nooffsetroute(ctx):
+    """Shared with C03.FILTERIMPL / C03.KEYPARAM: the `no offset` entries reach their scorer with offset_ratio=None (the
+    keyword router passes every accepted keyword with its own value, None included), so they are computed on a superset
+    of the with-offset tolerance graph."""
+    from . import c03
+
+    for o in c03.rule_filterimpl(ctx):
+        o.rule = "C07.NOOFFSETROUTE"
+        yield o
+    for o in c03.rule_keyparam(ctx):
+        if "no_offset" in o.construct or "no offset" in o.construct.lower():
+            o.rule = "C07.NOOFFSETROUTE"
+            yield o
+
+
 RULES = [
+    ("C07.CONTNORM", 2, rule_contnorm),
+    ("C07.NOOFFSETROUTE", 12, rule_nooffsetroute),
     ("C07.EDGEPRED", 4, rule_edgepred),
     ("C07.THRESH", 33, rule_thresh),
     ("C07.STRICTFLAG", 10, rule_strictflag),
     ("C07.NESTEDCONJ", 4, rule_nestedconj),
     ("C07.MAXINCLUDES", 5, rule_maxincludes),
-    ("C07.CHROMATWIN", 6, rule_chromatwin),
+    ("C07.CHROMATWIN", 7, rule_chromatwin),
 ]
